@@ -101,6 +101,7 @@ type SerialCase struct {
 	Rendered []string `json:"rendered,omitempty"`
 	Long     []int    `json:"long,omitempty"` // C05: extra triples with a text literal padded so that the printed line has exactly this length
 	Big      int      `json:"big,omitempty"`  // C05: this many extra small triples (graphs larger than any page / buffer size)
+	Deep     bool       `json:"deep,omitempty"`    // C15 thorough tier: every bit flip, every reader-failure offset and every (lost head x lost separator) pair of small images
 	SrcFail  *FaultSpec `json:"srcfail,omitempty"` // C05: the graph being exported fails its listing (before the first / after j triples)
 	DstFail  int        `json:"dstfail,omitempty"` // C05: the graph being loaded refuses its k-th AddTriples call (0: never)
 }
@@ -186,6 +187,7 @@ func (h *serialHarness) Gen(r *Rand, tier string, clean bool) any {
 		}
 	} else {
 		c.Damage = "enumerate"
+		c.Deep = tier == "thorough"
 	}
 	return c
 }
@@ -528,6 +530,20 @@ func (h *serialHarness) damages(c *SerialCase, img []byte, r *Rand) []damage {
 			ds = append(ds, applyDamage(fmt.Sprintf("torn:%d", r.Intn(len(img))), img))
 		}
 	}
+	if c.Deep && len(img) <= 220 {
+		for k := 0; k < len(img); k++ { // every single-bit flip, every reader-failure offset
+			for b := 0; b < 8; b++ {
+				ds = append(ds, applyDamage(fmt.Sprintf("flip:%d:%d", k, b), img))
+			}
+			ds = append(ds, applyDamage(fmt.Sprintf("rfail:%d", k), img))
+		}
+		nl0 := len(splitLines(img))
+		for k := 1; k < len(img); k += 1 + len(img)/120 { // lost head x lost separator
+			for i := 0; i < nl0; i++ {
+				ds = append(ds, applyDamage(fmt.Sprintf("head:%d+merge:%d", k, i), img))
+			}
+		}
+	}
 	for i := 0; i < 60 && len(img) > 0; i++ {
 		ds = append(ds, applyDamage(fmt.Sprintf("flip:%d:%d", r.Intn(len(img)), r.Intn(8)), img))
 	}
@@ -698,6 +714,7 @@ func (h *serialHarness) runDamage(t *testing.T, c *SerialCase) *Outcome {
 	kinds := map[string]int64{}
 	for _, d := range h.damages(c, w.buf, r) {
 		o.Execs++
+		progressTick()
 		if strings.Contains(d.name, "+") {
 			kinds["double_damage"]++
 		} else {
